@@ -237,6 +237,7 @@ func ruleC08(c *Check, p *Prog) {
 		checkRace(c, p, ref.Name, d)
 		checkTokenBarrier(c, p, ref.Name, d, ref.S)
 		checkDoneOnce(c, p, "R-BARRIER", ref.Name+"/done-once", d)
+		checkPublishBeforeDone(c, p, "R-BARRIER", ref.Name+"/publish-before-done", d)
 		checkWorkers(c, p, "R-WORKERS", ref.Name, d)
 		// the sequential verdict is only reproduced if every sample is one consecutive chunk of the stream (shared with C10)
 		if d.Read != nil {
@@ -456,6 +457,11 @@ func nilTrip(l *LoopS) *Term {
 
 // checkDoneOnce: on every path through one iteration of the job loop Done is called exactly once.
 func checkDoneOnce(c *Check, p *Prog, rule, key string, d *wfDesc) {
+	checkDoneOnceUnder(c, p, rule, key, d, nil)
+}
+
+// checkDoneOnceUnder restricts the obligation to the paths on which `assume` holds (nil = all paths).
+func checkDoneOnceUnder(c *Check, p *Prog, rule, key string, d *wfDesc, assume func(S *Store) *Term) {
 	S := d.X.S
 	l := d.JobLoop
 	where := loopWhere(p, l)
@@ -471,6 +477,9 @@ func checkDoneOnce(c *Check, p *Prog, rule, key string, d *wfDesc) {
 	}
 	okT := S.mkOp("extract1", TBool, S.SymTerm(recv.Res))
 	bodyG := S.Canon(S.And(recv.Guard, okT))
+	if assume != nil {
+		bodyG = S.Canon(S.And(bodyG, assume(S)))
+	}
 	var dones []*Event
 	nested := false
 	l.Body.Events(func(e *Event, loops []*LoopS) {
@@ -499,6 +508,9 @@ func checkDoneOnce(c *Check, p *Prog, rule, key string, d *wfDesc) {
 		}
 	}
 	cover := S.Equivalent(S.Canon(any), bodyG)
+	if assume != nil {
+		cover = S.Equivalent(S.Canon(S.And(any, assume(S))), bodyG)
+	}
 	detail := ""
 	if !cover {
 		// witness: the part of the body guard not covered
@@ -569,4 +581,48 @@ func checkWorkersAt(c *Check, p *Prog, rule, name string, S *Store, goEv *Event)
 		}
 	}
 	c.Expect(okk, rule, name, where, "at least one worker goroutine is started (runtime.NumCPU() / GOMAXPROCS(0) >= 1, or a constant >= 1)", detail+": with zero workers the first `jobs <- i` blocks forever")
+}
+
+// checkPublishBeforeDone: within a job iteration every write to memory shared with the spawner (result slots,
+// counters, error slots) is ordered before the wg.Done() that can follow it: Wait() is the only happens-before edge
+// to the spawner's reads.
+func checkPublishBeforeDone(c *Check, p *Prog, rule, key string, d *wfDesc) {
+	S := d.X.S
+	l := d.JobLoop
+	fresh := map[*Term]bool{}
+	d.Worker.Top.Events(func(e *Event, _ []*LoopS) {
+		if e.Kind == "alloc" {
+			fresh[S.SymTerm(e.Res)] = true
+		}
+	})
+	var dones []*Event
+	l.Body.Events(func(e *Event, _ []*LoopS) {
+		if e.Kind == "call" && e.Callee == "(*sync.WaitGroup).Done" && len(e.Args) == 1 && e.Args[0] == d.Wait {
+			dones = append(dones, e)
+		}
+	})
+	var late []string
+	n := 0
+	l.Body.Events(func(e *Event, loops []*LoopS) {
+		shared := false
+		switch {
+		case e.Kind == "store" && !fresh[e.Root]:
+			shared = true
+		case e.Kind == "call" && strings.HasPrefix(e.Callee, "sync/atomic."):
+			shared = true
+		}
+		if !shared {
+			return
+		}
+		n++
+		g := outerGuard(e, loops)
+		for _, dn := range dones {
+			if dn.Seq < e.Seq && !S.Exclusive(dn.Guard, g) {
+				late = append(late, fmt.Sprintf("%s happens after wg.Done() at %s", e.String(p), p.Pos(dn.Pos)))
+			}
+		}
+	})
+	c.Expect(len(late) == 0 && len(dones) > 0, rule, key, loopWhere(p, l),
+		fmt.Sprintf("all %d writes to shared result/error memory of an iteration precede the wg.Done() of that iteration (Wait orders them before the spawner's reads)", n),
+		"published after completion was signalled (the spawner may read before the write lands): "+trunc(strings.Join(late, " | "), 500))
 }
